@@ -7,27 +7,24 @@ META = {
     "level": "model_checking",
     "technique": "TLA+ spec of the snap serving functions (SnapServe.tla) checked by TLC over every request of a bounded universe; every enumerated request executed on the real ServiceGet*Query (hash and path scheme) and verified with the real client-side trie.VerifyRangeProof; recorded random requests validated by SnapServeTrace.tla",
     "text": "SnapServe.tla transcribes the account-range, storage-range and bytecode serving loops over a rank-compressed world and states C48 declaratively (contiguous run from the first key at or after the origin, only the last item may reach the limit or exceed the byte budget, storage lists without proof are complete tries, bytecodes answer a prefix of the request). TLC checks the statement for every request over a small world (all origin/limit positions including inverted ranges, budgets around every cumulative size, unknown roots/accounts/codes) and prints each request with the expected response; the driver builds that world as a real chain (both state schemes), executes every request on the real Service functions, requires the identical response, the state's bodies, and acceptance by the real client-side trie.VerifyRangeProof with the right continuation flag; panics are caught and reported. Random requests on larger random worlds (odd-length origins, >2MB budgets, trie-node path sets incl. malformed ones checked positionally against a node-iterator oracle) are recorded and validated by the trace specification.",
-    "note": "Known deviation kept as pending finding (TODO-KNOWN-FINDING in SnapServe.tla / harness/cmd/c48): GetStorageRanges with zero/absent origin and a limit below the last slot returns a truncated list without proof, which the client's whole-trie check rejects. GetTrieNodes is checked by a Go-side oracle (not modelled in TLA+); its lookup-count and 5 s wall-clock cut-offs are not exercised. Worlds are genesis states.",
+    "note": "Finding C48-F1 (GetStorageRanges with zero/absent origin and a limit below the last slot returned a truncated list without proof) was found by this check and is fixed in /repo (622c6db25f); the spec describes the fixed behaviour and the reverse patch is mutation C48-7. GetTrieNodes is checked by a Go-side oracle (not modelled in TLA+); its lookup-count and 5 s wall-clock cut-offs are not exercised. Worlds are genesis states.",
     "design_ref": "3.7 C48",
 }
 
 T = 3600
 
 def run(ctx):
-    # VERIF_C48_STRICT=1: expect the behaviour after the candidate fix (limit-capped storage ranges are proven);
-    # the pending finding is then a plain violation
-    sfx = "Fixed" if os.environ.get("VERIF_C48_STRICT") == "1" else ""
     drv = ctx.build("c48")
     spec = os.path.join(os.path.dirname(os.path.dirname(os.path.abspath(__file__))), "spec", "net")
     # MC: the statement on a fixed small world (model only)
-    ctx.model_check("net/MCSnapServe", "net/MCSnapServe" + sfx, env={"WORLD": os.path.join(spec, "SnapWorldSmall.json")},
+    ctx.model_check("net/MCSnapServe", "net/MCSnapServe", env={"WORLD": os.path.join(spec, "SnapWorldSmall.json")},
                     timeout=T, name="MCSnapServe-fixed-world", workers=4)
     # R: the seeded world of the driver, all requests enumerated by TLC, executed on the real handlers
     for k in range(ctx.pick(1, 4)):
         wp = os.path.join(ctx.scratch, "world-%d.json" % k)
         env = {"VERIF_SEED": str(ctx.seed * 10 + k)}
         ctx.drive(drv, ["-mode", "world", "-world", wp], name="c48-world", timeout=T, env=env)
-        res = ctx.model_check("net/MCSnapServe", "net/MCSnapServeCases" + sfx, env={"WORLD": wp}, tags=("CASE",), timeout=2 * T,
+        res = ctx.model_check("net/MCSnapServe", "net/MCSnapServeCases", env={"WORLD": wp}, tags=("CASE",), timeout=2 * T,
                               name="MCSnapServe-cases-%d" % k, workers=4)
         cases = res.lines.get("CASE", [])
         if not cases:
@@ -40,13 +37,9 @@ def run(ctx):
     # V: random requests on larger worlds
     tp = os.path.join(ctx.scratch, "trace.ndjson")
     s, _ = ctx.drive(drv, ["-mode", "record", "-trace", tp, "-n", ctx.pick(4, 30), "-req", ctx.pick(500, 1000)], name="c48-record", timeout=T)
-    ok, consumed, total, r = ctx.validate("net/SnapServeTrace", tp, cfg="net/SnapServeTrace" + sfx, ntraces=s["traces"], timeout=2 * T)
+    ok, consumed, total, r = ctx.validate("net/SnapServeTrace", tp, ntraces=s["traces"], timeout=2 * T)
     if not ok:
         ctx.reject_trace("net/SnapServeTrace", tp, consumed, r)
-    known = sum(d["counts"].get("known-finding:storage-limit-without-proof", 0) for d in ctx.cov["drivers"])
-    if known:
-        # TODO-KNOWN-FINDING: pending coordinator decision (fix: commit or known_findings.json)
-        ctx.notes.append("pending finding observed %d times: GetStorageRanges zero origin + limit below last slot -> truncated list without proof (client whole-trie check fails)" % known)
     return ctx.finish(rule="MC/R: every request over a 5-account world (storage tries up to 6 slots, 2 codes): all origin/limit positions, budgets around each cumulative size; V: random requests on 20-80 account worlds",
                       assumptions=["genesis states", "rank compression: a hash between two keys is represented by key+1, key-1 or the midpoint",
                                    "trie-node serving checked against a Go node-iterator oracle only"])
